@@ -56,6 +56,51 @@ pub struct WireState {
 	pub tx_dropped_stamp: Option<u64>,
 	pub rx_dropped_stamp: Option<u64>,
 	pub max_send_yield: u32,
+	// single planned fault, fired at the `fault_at`-th seam event (tx / peer-push / rx-deliver)
+	pub seam_count: u64,
+	pub fault_at: Option<u64>,
+	pub fault: Option<Fault>,
+	pub fault_fired_stamp: Option<u64>,
+	pub fault_fired_vtime: Option<tokio::time::Instant>,
+}
+
+#[derive(Debug, Clone)]
+pub enum Fault {
+	/// The next `send` (and all later ones) fails.
+	SendError,
+	/// This item is put in front of / behind whatever is queued for `receive()`.
+	Recv { item: InItem, front: bool },
+}
+
+impl WireState {
+	/// Count one seam event; fire the planned fault when its position is reached.
+	fn seam_tick(&mut self) {
+		self.seam_count += 1;
+		if self.fault_at == Some(self.seam_count) {
+			if let Some(f) = self.fault.take() {
+				let st = rt::event("fault-fired", format!("at seam event {} {:?}", self.seam_count, f));
+				self.fault_fired_stamp = Some(st);
+				self.fault_fired_vtime = Some(tokio::time::Instant::now());
+				match f {
+					Fault::SendError => {
+						self.fail_send_at = Some(self.send_count);
+					}
+					Fault::Recv { item, front } => {
+						self.pushed += 1;
+						let seq = self.pushed;
+						if front {
+							self.inbox.push_front((seq, item));
+						} else {
+							self.inbox.push_back((seq, item));
+						}
+						if let Some(wk) = self.rx_waker.take() {
+							wk.wake();
+						}
+					}
+				}
+			}
+		}
+	}
 }
 
 #[derive(Clone, Default)]
@@ -106,6 +151,7 @@ impl Wire {
 		if let Some(wk) = w.rx_waker.take() {
 			wk.wake();
 		}
+		w.seam_tick();
 		seq
 	}
 
@@ -164,6 +210,7 @@ impl TransportSenderT for Tx {
 			if let Some(wk) = w.peer_waker.take() {
 				wk.wake();
 			}
+			w.seam_tick();
 			Ok(())
 		}
 	}
@@ -213,6 +260,7 @@ impl Future for Recv {
 			Some((seq, item)) => {
 				let st = rt::event("rx-deliver", format!("#{seq}"));
 				w.delivered.push((seq, st, item.clone()));
+				w.seam_tick();
 				Poll::Ready(match item {
 					InItem::Text(t) => Ok(ReceivedMessage::Text(t)),
 					InItem::Bytes(b) => Ok(ReceivedMessage::Bytes(b)),
